@@ -5,7 +5,7 @@
    formulas of the Euler integral (they rest on the effect of restrictBasisTo, C02). *)
 From Coq Require Import ZArith List.
 From mathcomp Require Import all_ssreflect all_algebra.
-From SV Require Import Names Rep Complex Homology ListMat SnfCount Rank Betti EulerP.
+From SV Require Import Names Rep Complex Homology ListMat SnfCount Rank Betti EulerP RepInv Shapes ShapesReach.
 
 Theorem C19_chi_def : forall r, eulerCharacteristic r = alt_sum (Zpos xH) (numberOfSimplicesOfOrder r).
 Proof. reflexivity. Qed.
@@ -22,3 +22,15 @@ Theorem C19_chi_betti_partial :
   eulerCharacteristic r = alt_sumZ (Zpos xH) (List.map (betti1 r) (List.seq 0 (r_nord r))).
 Proof. exact euler_characteristic_is_alt_betti. Qed.
 Print Assumptions C19_chi_betti_partial.
+
+(* the hypothesis of the previous theorem holds of every complex of every history (shape
+   invariant, C03), so there the Euler characteristic IS the alternating sum of the Betti numbers *)
+Theorem C19_chi_is_alternating_betti_sum :
+  forall r, sinv r -> eulerCharacteristic r = alt_sumZ (Zpos xH) (List.map (betti1 r) (List.seq 0 (r_nord r))).
+Proof. exact euler_is_alternating_betti_sum. Qed.
+Print Assumptions C19_chi_is_alternating_betti_sum.
+Theorem C19_chi_is_alternating_betti_sum_every_history :
+  forall uid ops, let r := List.fold_left rstep ops (empty_rep uid) in
+  eulerCharacteristic r = alt_sumZ (Zpos xH) (List.map (betti1 r) (List.seq 0 (r_nord r))).
+Proof. exact reachable_euler. Qed.
+Print Assumptions C19_chi_is_alternating_betti_sum_every_history.
